@@ -30,6 +30,8 @@ harness("c14_builders", "san", "pbt/c14_builders.cc", link="-lrapidcheck")
 harness("c15_io", "san", "pbt/c15_io.cc", link="-lrapidcheck")
 harness("dec_enum", "san", "fuzz/dec_enum.cc", link="-lrapidcheck")
 harness("c05_corpus", "san", "pbt/c05_corpus.cc", link="-lrapidcheck")
+harness("c06_history", "san", "pbt/c06_history.cc", link="-lrapidcheck")
+harness("c06_history_plain", "plain", "pbt/c06_history.cc", link="-lrapidcheck")
 harness("dec_fuzz", "san", "fuzz/dec_fuzz.cc", link="-fsanitize=fuzzer")
 # the command line tools of the repository, plain optimised build (C15 pipelines)
 harness("draco_encoder", "plain", "repo:src/draco/tools/draco_encoder.cc", whole_archive=True)
@@ -311,6 +313,14 @@ def check_c04(tier):
                        "method_pc_sequential", "method_pc_kdtree", "att_explicit_quantization_used"])
 
 
+def check_c07(tier):
+    return check_geom("C07", "c07", tier, 2500, 30000,
+                      ["transform_q_2_24", "transform_q_25_30", "normal_q_2_7", "normal_q_8_14", "normal_q_15_24",
+                       "normal_near_axis", "normal_near_edge_or_face_centre", "normal_near_hemisphere_boundary",
+                       "normal_scaled_length", "normal_degenerate_class", "event:prediction_scheme=6",
+                       "event:prediction_scheme=0", "method_mesh_edgebreaker", "method_mesh_sequential", "method_pc_sequential"])
+
+
 def check_c12(tier):
     return check_geom("C12", "c12", tier, 1500, 15000,
                       ["pairs_with_2plus_shared", "q_1_8", "q_9_20", "q_21_30", "pair_eb_kd", "pair_kd_eb",
@@ -577,7 +587,77 @@ def check_c05(tier):
                                "the encoder's bytes are not compared: an encoder improvement is not a violation"])
 
 
+def check_c06(tier):
+    t0 = time.time()
+    exes = ensure_built(["c06_history", "c06_history_plain"])
+    res = Result()
+    run_shards(res, "C06", "c06_history", exes["c06_history"], "c06", tier, 16, 400 if tier == "quick" else 5000)
+    # cross-process part: the same fixed-seed case list under different address-space layouts / allocator fills
+    ncases = 300 if tier == "quick" else 3000
+    variants = [("default", [], {}), ("no_aslr", ["setarch", os.uname().machine, "-R"], {}),
+                ("malloc_perturb_85", [], {"MALLOC_PERTURB_": "85"}), ("malloc_perturb_170", [], {"MALLOC_PERTURB_": "170"}),
+                ("malloc_perturb_255", [], {"MALLOC_PERTURB_": "255"}), ("default_again", [], {})]
+    if tier == "thorough" and shutil.which("valgrind"):
+        variants.append(("valgrind_memcheck", ["valgrind", "-q", "--error-exitcode=97"], {}))
+
+    def one(v):
+        name, prefix, extra = v
+        env = dict(os.environ)
+        env.update(extra)
+        env.update({"VERIF_MODE": "c06digest", "VERIF_PROP": "C06", "VERIF_OUT": "", "VERIF_OPEN": ",".join(f["id"] for f in open_findings()),
+                    "RC_PARAMS": "seed=%d max_success=%d" % (derive_seed(SEED, "C06", "digest"), ncases if name != "valgrind_memcheck" else 200)})
+        try:
+            r = subprocess.run(prefix + [exes["c06_history_plain"]], env=env, capture_output=True, text=True, errors="replace", timeout=7200)
+        except (subprocess.TimeoutExpired, OSError) as e:
+            return name, None, str(e)
+        return name, [l for l in r.stdout.splitlines() if l.startswith("DIGEST ")], "rc=%d %s" % (r.returncode, r.stderr[-500:])
+
+    with ThreadPoolExecutor(len(variants)) as ex:
+        outs = list(ex.map(one, variants))
+    base = outs[0][1]
+    mismatch = None
+    for name, lines, info in outs:
+        if lines is None or not lines:
+            res.extra.setdefault("cross_process_variants_unavailable", []).append("%s: %s" % (name, info))
+            continue
+        res.classes["cross_process_variant_" + name] = len(lines)
+        res.evaluations += len(lines)
+        if name == "valgrind_memcheck":
+            if "rc=97" in info:
+                mismatch = (name, "valgrind memcheck reports an error (uninitialised value reaching the output?): " + info)
+            if base[:len(lines)] != lines:
+                mismatch = (name, "digest list differs under valgrind")
+            continue
+        if lines != base:
+            first = next((i for i, (a, b) in enumerate(zip(base, lines)) if a != b), min(len(base), len(lines)))
+            mismatch = (name, "digest list differs from the default run at case %d: %s vs %s" % (
+                first, base[first] if first < len(base) else "-", lines[first] if first < len(lines) else "-"))
+    if mismatch:
+        os.makedirs(REPLAY, exist_ok=True)
+        path = os.path.join(REPLAY, "C06-crossprocess-%s.txt" % mismatch[0])
+        with open(path, "w") as f:
+            f.write(mismatch[1] + "\n")
+        # confirm: run the two variants again
+        again = [one(variants[0]), one([v for v in variants if v[0] == mismatch[0]][0])]
+        if again[0][1] != again[1][1] or "valgrind" in mismatch[0]:
+            print("VIOLATION property=C06 replay=%s" % path)
+            print("  " + mismatch[1][:400])
+            res.extra["cross_process_mismatch"] = mismatch[1][:400]
+            write_evidence("C06", tier, "exploration", dict(evaluations=res.evaluations, distinct_nontrivial=len(res.nontrivial),
+                           rule=" | ".join(res.rules), samples=res.samples[:4], classes=res.classes), time.time() - t0, 1, [])
+            return 1
+    res.required_classes = ["encoder_encodes", "expert_encodes", "decoder_decodes", "trailing_byte_decodes",
+                            "cross_process_variant_no_aslr", "cross_process_variant_malloc_perturb_255"]
+    return finish("C06", tier, res, t0,
+                  assumptions=["cross-process determinism is sampled on %d fixed-seed cases under ASLR off/on and three "
+                               "MALLOC_PERTURB_ fills (thorough: plus valgrind memcheck on 200 cases)" % ncases,
+                               "MSan is not usable in this image (no instrumented libstdc++); uninitialised bytes are attacked "
+                               "through allocator perturbation and valgrind only"])
+
+
 CHECKS = {
+    "C07": check_c07,
+    "C06": check_c06,
     "C05": check_c05,
     "C02": check_c02,
     "C03": check_c03,
@@ -604,6 +684,7 @@ REPLAYERS = {
     "C14": [("c14_builders", "c14")],
     "C15": [("c15_io", "c15")],
     "C05": [("c05_corpus", "c05")],
+    "C06": [("c06_history", "c06")],
     "C02": [("dec_enum", "x")],
     "C03": [("dec_enum", "x")],
     "C18": [("dec_enum", "x")],
@@ -612,6 +693,7 @@ REPLAYERS = {
     "C17": [("prim_pbt", "c17")],
     "C01": [("geom_pbt", "c01")],
     "C04": [("geom_pbt", "c04")],
+    "C07": [("geom_pbt", "c07")],
     "C10": [("geom_pbt", "c10")],
     "C12": [("geom_pbt", "c12")],
     "C08": [("c08_symbols", "c08")],
